@@ -20,6 +20,11 @@ from vlib.props.C11 import FixedRandom, members, fresh
 from vlib.props.C13 import stage_program, prebuild as _prebuild13
 
 
+# the draws of TypeOverwriting.transform that select WHAT is mutated (method, graph node, type parameter) are
+# tuples / named tuples; draws inside find_irrelevant_type range over types and take the first element
+MUTATION_CHOICES = lambda seq: isinstance(seq[0], tuple)      # noqa: E731
+
+
 def c04_members(tier):
     names = members(tier)
     if tier == 'quick':
@@ -44,8 +49,8 @@ def types_changed(diff):
     return by
 
 
-def h_overwrite(eng, tier, lang, sym_draws):
-    names = c04_members(tier)
+def h_overwrite(eng, tier, lang, sym_draws, only=None, all_draws=False):
+    names = [n for n in c04_members(tier) if only is None or n.startswith(only)]
     pname = names[int(eng.fresh_int(0, len(names) - 1, 'member'))]
     stage = int(eng.fresh_int(0, 1, 'stage'))
     try:
@@ -59,7 +64,7 @@ def h_overwrite(eng, tier, lang, sym_draws):
             text0 = F.translate(lang, P.clone(p0))
         except Exception:   # noqa
             text0 = None
-    sym = installed(eng, max_draws=3000, max_sym_draws=sym_draws)
+    sym = installed(eng, max_draws=3000, max_sym_draws=sym_draws, sym_filter=None if all_draws else MUTATION_CHOICES)
     try:
         r, t = P.overwrite_split(p, lang, FixedRandom(), sym)
     except Exception as e:  # noqa -- C18's subject; reported there
@@ -107,8 +112,10 @@ def h_overwrite(eng, tier, lang, sym_draws):
             kind = 'function'
         elif set(attrs) == {'class_type'}:
             kind = 'type-argument'
+        elif set(attrs) <= {'type_args', '_can_infer_type_args'} and 'type_args' in attrs:
+            kind = 'call-type-argument'
         ok_shape = kind is not None and all(
-            set(by[q]) <= {'class_type', 'var_type', 'inferred_type', 'ret_type'} and _same_change(by[q], attrs)
+            set(by[q]) <= {'class_type', 'var_type', 'inferred_type', 'ret_type', 'type_args'} and _same_change(by[q], attrs)
             for q in paths[1:])
     if len(by) > 1 and _aliased_input(p0):
         # hand-built fixtures reuse one type object for a declaration and its initialiser; the mutation then
@@ -132,6 +139,11 @@ def h_overwrite(eng, tier, lang, sym_draws):
             target = None
         if kind == 'function' and isinstance(d, ast.FunctionDeclaration) and P.type_repr(d.ret_type) != P.type_repr(o.ret_type):
             target = (ns, d, o, o.ret_type if o.ret_type is not None else o.inferred_type, d.ret_type)
+    if kind == 'call-type-argument':
+        a, b = by[node_path]['type_args']
+        ia = [i for i, (x, y) in enumerate(zip(a[1], b[1])) if x != y] if len(a[1]) == len(b[1]) else []
+        obs.append(Ob('one-type-argument-changed', len(ia) == 1, dict(case, before=str(a)[:200], after=str(b)[:200])))
+        eng.event('type-argument-overwritten')
     if kind == 'type-argument':
         a, b = by[node_path]['class_type']
         # ('type', ('P', name, args, flag))
@@ -220,14 +232,22 @@ OUT = ('programs outside the families; random draws after the first N of transfo
 def jobs(tier):
     out = []
     langs = ['kotlin'] if tier == 'quick' else F.LANGS      # the mutation barely depends on the language
-    nd = 2 if tier == 'quick' else 3
+    nd = 3 if tier == 'quick' else 4
     for lang in langs:
         out.append(Job('overwrite-%s' % lang, h_overwrite, dict(tier=tier, lang=lang, sym_draws=nd), split_depth=3,
                        functions=FUNCS, require_events=['injected', 'nothing-injected', 'variable-overwritten', 'rejection-decided'],
                        budget_s=2400, crosscheck_every=200, setup=lambda t=tier, l=lang: prebuild(t, l),
                        bounds='every family member (fixtures + generated) as generated and after erasure x every outcome of the '
-                              'first %d random draws of TypeOverwriting.transform (method, node, ...); mutation run as for %s'
+                              'first %d selection draws of TypeOverwriting.transform (method, node, type parameter; draws over types take '
+                              'the first element); mutation run as for %s'
                               % (nd, lang), outside=OUT))
+    for lang in langs:
+        out.append(Job('overwrite-replacement-types-%s' % lang, h_overwrite,
+                       dict(tier=tier, lang=lang, sym_draws=nd, only='template/', all_draws=True), split_depth=3,
+                       functions=FUNCS, require_events=['injected'], budget_s=2400, crosscheck_every=200,
+                       setup=lambda t=tier, l=lang: prebuild(t, l),
+                       bounds='template family members x stage x every outcome of the first %d random draws of transform() of any '
+                              'kind (selection draws and the first draws of the replacement-type search)' % nd, outside=OUT))
     return out
 
 
